@@ -41,6 +41,9 @@ def gen_cases(tier, seed):
         for dt in ("float32", "float64"):
             for i in range(nb if solver != "fast" else max(2, nb // 3)):
                 cases.append({"id": f"{solver}_{dt}_{i}", "solver": solver, "dtype": dt, "n_inst": per, "seed": [seed, solver, dt, i], "tier": tier})
+    # the higher-order solver at / beyond the dtype's resolution: that is where its residual guard has to fire (or hold)
+    for i in range(12 if tier == "quick" else 48):
+        cases.append({"id": f"ho_guard_{i}", "solver": "ho", "dtype": "float32", "n_inst": per, "seed": [seed, "ho_guard", i], "tier": tier, "guard_regime": True})
     cases.append({"id": "newton_noninteger", "solver": "newton_reject", "dtype": "float32", "n_inst": 0, "seed": [seed], "tier": tier})
     return cases
 
@@ -107,6 +110,12 @@ def run_case(case):
             # iterative solvers are mostly fed moderately conditioned problems so that convergence is exercised
             logk = min(logk, rnd.choice([0, 1, 2, 3, 4]))
             eps = max(eps, scale * 10.0 ** (-logk - 2))
+        if case.get("guard_regime"):
+            # condition number of A + eps*I at or beyond 1/u: the coupled residual can look converged while X has lost all accuracy
+            n = max(n, 4)
+            kind = rnd.choice(["geometric", "geometric", "rank_deficient", "clustered"] if "rank_deficient" in KINDS else KINDS)
+            logk = rnd.choice([7, 8, 9, 10, 12])
+            eps = scale * 10.0 ** rnd.choice([-12, -11, -10, -9, -8])
         lam = matref.spectrum(kind, n, 10.0**logk, gen, scale)
         structure = rnd.choice(["dense", "dense", "dense", "diagonal_unflagged", "permuted_diagonal", "block_diagonal"])
         if structure == "dense" or n < 2:
